@@ -283,6 +283,7 @@ pub fn scenario(prop: &str, tier: &str, sseed: u64, index: u64) -> (&'static str
         "C02" | "C09" if (50..58).contains(&structured) => return ("abandoned-ops", families::abandoned_ops(&mut g)),
         "C02" if structured < 30 => return ("queued-senders", families::queued_senders(&mut g)),
         "C01" if structured < 25 => return ("send-then-drop", families::send_then_drop(&mut g)),
+        "C01" | "C02" | "C08" if (60..66).contains(&structured) => return ("interval-under-backlog", families::interval_under_backlog(&mut g)),
         "C13" if structured < 30 => return ("askers-vs-ending", families::askers_vs_ending(&mut g)),
         "C20" if structured < 60 => return ("metrics", families::metrics_family(&mut g)),
         "C14" if structured < 60 => return ("forced-cycle", families::forced_cycle(&mut g, index)),
